@@ -497,8 +497,14 @@ def gen_direct(rng, shape=None):
     disp[inv] = sentinel
     lo = -rng.choice([2, 3, 7]) / rng.choice([1, 2])
     hi = rng.choice([2, 3, 7]) / rng.choice([1, 2])
-    return {"kind": "direct", "shape": [rows, cols], "window_size": w, "marge": rng.choice([0, 1, 2]),
-            "f": rng.choice([2, 2, 3]), "user_min": lo, "user_max": hi, "disp": disp, "flags": flags}
+    out = {"kind": "direct", "shape": [rows, cols], "window_size": w, "marge": rng.choice([0, 1, 2]),
+           "f": rng.choice([2, 2, 3]), "user_min": lo, "user_max": hi, "disp": disp, "flags": flags}
+    # the user bounds as ARRAYS (`disp_min: np.ndarray`): the interval is [nanmin(disp_min), nanmax(disp_max)], so the other
+    # entries (and a NaN) must not matter; drawn last so that the rest of the case does not depend on it
+    spread = rng.choice([0, 0, 1, 2.5])
+    out["disp_min_arr"] = [lo + spread, lo, float("nan")] if spread else lo
+    out["disp_max_arr"] = [hi - spread, float("nan"), hi] if spread else hi
+    return out
 
 
 def check_direct(ctx, report, d, label):
@@ -509,7 +515,10 @@ def check_direct(ctx, report, d, label):
     case = {"label": label, "kind": "direct", "shape": d["shape"], "window_size": w, "marge": d["marge"], "f": f,
             "user": [d["user_min"], d["user_max"]], "seed": ctx.seed}
     try:
-        mn, mx = md.disparity_range_direct(d["disp"], d["flags"], w, d["marge"], f, d["user_min"], d["user_max"])
+        mn, mx = md.disparity_range_direct(d["disp"], d["flags"], w, d["marge"], f, d.get("disp_min_arr", d["user_min"]),
+                                           d.get("disp_max_arr", d["user_max"]))
+        if isinstance(d.get("disp_min_arr"), list):
+            report.count("direct_user_bounds_as_arrays")
     except Exception as exc:  # pylint: disable=broad-except
         report.case(key=json.dumps([label, d["shape"], w, d["marge"], f]), nontrivial=True, sample={"shape": d["shape"]})
         report.hit("finer_interval_rule")
@@ -583,7 +592,9 @@ def run(ctx, report, status):
         "(pipeline, shape, interval). History: two different multiscale pipelines run one after the other on one machine object, the second judged like a fresh run. Direct: the real disparity_range on synthetic coarse levels (integer/quarter disparities, "
         "invalid blobs on borders and chunk boundaries with NaN/sentinel disparities, information bits, windows 1/3/5, shapes "
         "straddling the chunk size 100: 102x3, 103x7, 5x205, 101x104...) against the model, the model through the chunk loop of "
-        "the source and the specification; non-trivial = a valid interior pixel"
+        "the source and the specification (user bounds also given as arrays with NaN); non-trivial = a valid interior pixel. "
+        "Translator: the exact evaluator of the statement list Generated/KernelsMultiscale.lean is printed from against the real "
+        "disparity_range / mask_invalid_disparities on >= 66 levels (straddling 100, window 1, whole windows invalid, factor 1)"
     )
     rng = ctx.rng
     for name, case in core.load_corpus(PROP):
